@@ -188,7 +188,7 @@ def call(fn, *a, **k):
     """Run a library call; return ('ok', value) or ('err', exception)."""
     try:
         return 'ok', fn(*a, **k)
-    except Watchdog:
+    except (Watchdog, Violation, Discard):
         raise
     except Exception as e:  # noqa: BLE001 - classification is the caller's job
         return 'err', e
